@@ -31,14 +31,17 @@ type concRes struct {
 // hook points. "All operations finished" is decided by vk.Quiesce (every goroutine blocked) and Task.Done, never
 // by sleeping. The model clock returns a fresh, larger instant on every reading.
 func concurrent(r *vk.Run) {
-	n := r.Pick(1600, 40000)
+	n := r.Pick(4000, 40000)
+	// mix C (the cases after the first n): every operation competes for the one normal slot (updates to and from normal,
+	// normal adds and creates, deletes), so that two such writers overlap in most cases instead of a few per thousand
+	nC := r.Pick(2000, 20000)
 	sched := vk.NewSched()
 	defer sched.Close()
 	t := newTally()
 	defer t.flush(r)
 	targets := []string{"a0", "a1", "a2", "c0", "c1", "ghost"}
 
-	for i := 0; i < n; i++ {
+	for i := 0; i < n+nC; i++ {
 		if !r.Mine(i) {
 			continue
 		}
@@ -47,6 +50,9 @@ func concurrent(r *vk.Run) {
 		mix := "A"
 		if i%2 == 1 {
 			mix = "B"
+		}
+		if i >= n {
+			mix = "C"
 		}
 		clk := &tickClock{}
 		init := genInit(rng)
@@ -75,7 +81,11 @@ func concurrent(r *vk.Run) {
 				if rng.Bool() {
 					door = "server"
 				}
-				plans[p] = append(plans[p], genOp(rng, door, targets, mix == "B"))
+				if mix == "C" {
+					plans[p] = append(plans[p], genNormalRaceOp(rng, door))
+					continue
+				}
+				plans[p] = append(plans[p], genOp(rng, door, targets, mix == "B", false))
 			}
 		}
 		stressSeed := rng.Uint64() | 1
@@ -403,4 +413,22 @@ func deleteStorm(r *vk.Run) {
 			return
 		}
 	}
+}
+
+// genNormalRaceOp draws an operation of mix C: a writer that may claim or give up the normal slot.
+func genNormalRaceOp(rng *vk.Rand, door string) op {
+	ids := []string{"a0", "a1", "a2"}
+	o := op{Target: ids[rng.Intn(len(ids))], Door: door}
+	switch rng.Intn(8) {
+	case 0:
+		o.Kind, o.Target, o.Normal = "create", "", rng.Chance(2, 3)
+	case 1:
+		o.Kind, o.Normal = "add", rng.Chance(2, 3)
+	case 2:
+		o.Kind, o.AM = "delete", rng.Bool()
+	default:
+		o.Kind, o.Normal = "update", rng.Chance(2, 3)
+		o.Mask = rng.PickStr("normal", "normal", "none", "title+normal")
+	}
+	return o.cached()
 }
